@@ -3,6 +3,7 @@ package main
 import (
 	"encoding/json"
 	"fmt"
+	"os"
 	"sort"
 	"strings"
 
@@ -303,10 +304,14 @@ func runC16(t *Trace, r *Rng, tier string, _ []string) {
 		if im.Validate() != nil {
 			continue
 		}
-		dir := fmt.Sprintf("%s/verif-c16-%d-%d", tempDir(), r.U64()%1_000_000, i)
+		_ = r.U64()
+		parent, err := os.MkdirTemp("", "verif-c16-")
+		must(err)
+		dir := parent + "/i"
+		defer os.RemoveAll(parent)
 		idx, err := bleve.New(dir, im)
 		if err != nil {
-			t.Emit("reopen-create-err", true, "echo ok", "ERR")
+			t.Emit("reopen-create-err", true, "echo ok", "ERR:"+strings.ReplaceAll(oneLine(err.Error()), " ", "_"))
 			continue
 		}
 		idx.Close()
